@@ -18,7 +18,7 @@ TLog == ndJsonDeserialize("trace.ndjson")
 VARIABLES l,
   seg, meta, tmp,
   rf, rp, wf, wp, depth, nrf, nrp, needSync, count, wopen, pending, pc, ret, up, ropen, rbuf, rfoff,
-  enq, consumed, taken, wSync, cSync, crashes, mark
+  enq, lseq, consumed, taken, wSync, cSync, crashes, mark
 
 INSTANCE DiskQueue WITH Sizes <- TraceSizes, MaxPuts <- 1000000,
                         MaxCrashes <- 0, AllowReopen <- TRUE, AllowTick <- FALSE, PostPuts <- 0, Mutant <- ""
@@ -35,7 +35,8 @@ Same == TRUE
 SegOf(fs, f) == fs.segs[ToString(f)]
 SegsEq(fs) == /\ \A f \in DOMAIN seg' : ToString(f) \in DOMAIN fs.segs /\ fs.segs[ToString(f)] = seg'[f]
               /\ Cardinality(DOMAIN fs.segs) = Cardinality(DOMAIN seg')
-MetaRec(m) == [depth |-> m[1], rf |-> m[2], rp |-> m[3], wf |-> m[4], wp |-> m[5]]
+\* m[6] = bytes found in the file behind the metadata text (stale tail of an older, longer text)
+MetaRec(m) == [depth |-> m[1], rf |-> m[2], rp |-> m[3], wf |-> m[4], wp |-> m[5], tail |-> m[6]]
 
 TInit == l = 1 /\ Init
 
@@ -45,7 +46,7 @@ THist == /\ Is("hist") /\ MaxFile = Ev.maxfile /\ SyncEvery = Ev.syncevery
          /\ rf' = 0 /\ rp' = 0 /\ wf' = 0 /\ wp' = 0 /\ depth' = 0 /\ nrf' = 0 /\ nrp' = 0
          /\ needSync' = FALSE /\ count' = 0 /\ wopen' = FALSE /\ pending' = -1 /\ pc' = "top" /\ ret' = "top" /\ up' = TRUE
          /\ ropen' = FALSE /\ rbuf' = <<>> /\ rfoff' = 0
-         /\ enq' = <<>> /\ consumed' = 0 /\ taken' = <<>> /\ wSync' = 0 /\ cSync' = 0 /\ crashes' = 0 /\ mark' = None
+         /\ enq' = <<>> /\ lseq' = <<>> /\ consumed' = 0 /\ taken' = <<>> /\ wSync' = 0 /\ cSync' = 0 /\ crashes' = 0 /\ mark' = None
 
 TOpen    == Is("open") /\ Open /\ Same
 TClosed  == Is("closed") /\ Closed /\ Same
